@@ -1,9 +1,14 @@
 import CharsetProof.Lemmas.EntryFacts
 import CharsetProof.Props.C13
 import CharsetProof.Props.C13f
+import CharsetProof.Props.C13g
 open Charset
 #print axioms C13_chaos_is_mess_ratio_full
 #print axioms meanRatio_single
+#print axioms C13_chaos_of_text_all_sizes
+#print axioms C13_chaos_of_text_current
+#print axioms probeChunks_fit_lazy
+#print axioms nonEmpty_now
 #print axioms C13_normWindow_fit
 #print axioms C13_window_irrelevant
 #print axioms offsets_single
